@@ -67,15 +67,15 @@ def cases(rng, tier):
     for c in gs.lts_exhaustive(2, 1): out.append((c.fmt(), "exhaustive"))
     for c in gs.lts_exhaustive(2, 2): out.append((c.fmt(), "exhaustive"))
     for c in gs.lts_exhaustive(3, 1): out.append((c.fmt(), "exhaustive"))
-    for c in gs.lts_targeted(rng, 6000 if tier == "quick" else 120000): out.append((c.fmt(), "targeted"))
-    n = 16000 if tier == "quick" else 320000
+    for c in gs.lts_targeted(rng, 6000 if tier == "quick" else 60000): out.append((c.fmt(), "targeted"))
+    n = 16000 if tier == "quick" else 120000
     for i in range(n):
         out.append((gs.rand_lts_case(rng, 8, default=(i % 8 == 0)).fmt(), "random"))
     # larger systems: more than 31 (label, source) pairs, so that the engine's shared counters span several rows and blocks are split repeatedly
     for i in range(150 if tier == "quick" else 4000):
         out.append((gs.rand_lts_case(rng, 36, default=(i % 4 == 0), minn=12, maxlabels=6).fmt(), "random_large"))
     # a small core plus padding states with self-loops: the core's (label, state) counters end up alone in a row of the shared counter table
-    for i in range(1500 if tier == "quick" else 15000):
+    for i in range(1500 if tier == "quick" else 8000):
         nc = rng.randint(3, 7); npad = rng.randint(24, 34); n = nc + npad
         nl = rng.randint(1, 3)
         es = []
@@ -91,7 +91,7 @@ def cases(rng, tier):
             part = gs.rand_partition(rng, n, rng.randint(1, 3))
             out.append((gs.LtsCase(n, es, part, gs.rand_preorder(rng, len(part))).fmt(), "targeted_padded"))
     # few labels, many parallel edges, coarse partitions with a small block relation (collapsed counter rows while blocks are still split)
-    for i in range(4000 if tier == "quick" else 80000): out.append((gs.parallel_edges_case(rng).fmt(), "targeted_parallel_edges"))
+    for i in range(4000 if tier == "quick" else 40000): out.append((gs.parallel_edges_case(rng).fmt(), "targeted_parallel_edges"))
     return out
 
 def nontrivial(c, impl, verd):
